@@ -18,7 +18,7 @@ def run(tier):
     for k in range(nscen):
         sub = os.path.join(ws, "sc%d" % k)
         os.makedirs(sub)
-        names = _c09.make_scen(sub, vlib.rng("c10-scen-%d" % k), 3 if tier == "quick" else 4)
+        names = _c09.make_scen(sub, vlib.rng("c10-scen-%d" % k), 3 if tier == "quick" else 4, embed=True)
         fam[k] = dict(names)
 
     def one(k):
@@ -57,7 +57,7 @@ def run(tier):
                 if r["differing"] == 0 and len(res.samples) < 4:
                     res.sample({"checker": r["checker"], "scenario": r["name"], "family": fam[k].get(r["name"]), "inputs": r["inputs"], "verdict": "same results, panics, traces and final state on all inputs"})
             elif r["kind"] == "diff":
-                f = fam[k].get(r["name"], "?")
+                f = fam[k].get(r["name"], "?").split("@")[0]   # the syntactic context of a re-embedded scenario is not part of the finding's identity
                 o, w = r["orig"], r["rewritten"]
                 how = "result" if o["res"] != w["res"] else ("panic" if o["panic"] != w["panic"] else ("side-effect-trace" if o["trace"] != w["trace"] else "final-state"))
                 res.add_violation("behaviour:%s:%s" % (r["checker"], f), "%s (%s): %s differs on input #%d: original %s, rewritten %s" % (r["checker"], r["text"][:140], how, r["env"], json.dumps(o)[:200], json.dumps(w)[:200]),
